@@ -59,22 +59,24 @@ structure Params where
 def Params.src (p : Params) (i : Nat) : FuncValue := p.src0.getD i (.ofType 0)
 def Params.out (p : Params) (i : Nat) : FuncValue := p.out0.getD i (.ofType 0)
 
-/-- hypotheses on the typed move selection (they exclude exactly the K5 class and conversions `emit_arg_move` gets wrong) and on
-    exchanges (K3): see `Props/C06.lean` -/
+/-- hypotheses on the typed move selection (`first`, `again`) and on the inputs (`visOk`, `swapInt`): see `Props/C06.lean` -/
 structure Hyp (p : Params) : Prop where
   first : ∀ i d s, i < p.n → d < 32 → s < 32 →
     moveOkAt p.cfg p.vis (p.out i).regType (p.out i).typeId (p.src i).regType (p.src i).typeId (initTok p.vis i) d s = true
   again : ∀ i d s b, i < p.n → d < 32 → s < 32 →
     moveOkAt p.cfg p.vis (p.out i).regType (p.out i).typeId (p.out i).regType (p.out i).typeId ⟨i, b, true⟩ d s = true
-  swap : ∀ i j, i < p.n → j < p.n → i ≠ j → hasSwap p.cfg.arch (groupOf (p.src i).regType) = true →
-    groupOf (p.src i).regType = groupOf (p.src j).regType →
-    (p.out i).regId = (p.src j).regId → (p.out j).regId = (p.src i).regId →
-    (swapTok p.vis (swapRt (p.src i).regType (p.src j).regType) (initTok p.vis i)).dv = true ∧
-    (swapTok p.vis (swapRt (p.src i).regType (p.src j).regType) (initTok p.vis j)).dv = true
+  /-- the variable infos the machine judges with are those of the sources / destinations -/
+  visOk : ∀ i, i < p.n → p.vis[i]? = some ⟨(p.src i).typeId, (p.out i).typeId⟩
+  /-- variables of a group with an exchange instruction (x86 GP) are integers that fit their registers -/
+  swapInt : ∀ i, i < p.n → hasSwap p.cfg.arch (groupOf (p.out i).regType) = true →
+    isInt (p.src i).typeId = true ∧ isAbstract (p.src i).typeId = false ∧
+    isInt (p.out i).typeId = true ∧ isAbstract (p.out i).typeId = false ∧
+    tySize (p.src i).typeId ≤ regBytes (p.src i).regType ∧ tySize (p.out i).typeId ≤ regBytes (p.out i).regType
 
 /-- the token a variable's current register holds -/
 def Form (p : Params) (i : Nat) (v : Var) (tok : Tok) : Prop :=
-  (v.cur.typeId = (p.src i).typeId ∧ v.cur.regType = (p.src i).regType ∧ tok = initTok p.vis i) ∨
+  (v.cur.typeId = (p.src i).typeId ∧ v.cur.regType = (p.src i).regType ∧ tok.sv = true ∧
+    ((initTok p.vis i).dv = true → tok.dv = true)) ∨
   (v.cur.typeId = v.out.typeId ∧ v.cur.regType = v.out.regType ∧ tok.dv = true)
 
 structure VarOK (p : Params) (c : Ctx) (M : State) (i : Nat) (v : Var) : Prop where
@@ -89,9 +91,7 @@ structure VarOK (p : Params) (c : Ctx) (M : State) (i : Nat) (v : Var) : Prop wh
   outLt : v.out.regId < 32
   phys : physAt c (groupOf v.cur.regType) v.cur.regId = some i
   tok : ∃ tok, M.get (vloc v) = some tok ∧ tok.var = i ∧ (v.done = false → Form p i v tok) ∧
-        (v.done = true → v.cur.regId = v.out.regId ∧ tok.dv = true) ∧
-        (v.done = false → hasSwap p.cfg.arch (groupOf v.cur.regType) = true → tok = initTok p.vis i)
-  fresh : v.done = false → hasSwap p.cfg.arch (groupOf v.cur.regType) = true → v.cur = p.src i
+        (v.done = true → v.cur.regId = v.out.regId ∧ tok.dv = true)
 
 /-- a variable that still sits in its incoming stack slot (phase 3 loads it): never touched, token in source form -/
 structure StkOK (p : Params) (M : State) (i : Nat) (v : Var) : Prop where
@@ -147,5 +147,55 @@ theorem reassign_getD (w : WorkData) (i new old r : Nat) (hn : new < w.phys.leng
     by_cases h2 : r = old
     · subst h2; simp only [if_true]; exact getD_set_eq _ _ _ _ ho
     · simp only [h2, if_false]; exact getD_set_ne _ _ _ _ _ (fun h => h2 h.symm)
+
+theorem moveTok_dv_mono (vis : List VarInfo) (i : Nat) (k : Ext) (c w : Nat)
+    (h : (moveTok vis ⟨i, true, false⟩ k c w).dv = true) : (moveTok vis ⟨i, true, true⟩ k c w).dv = true := by
+  unfold moveTok at h ⊢
+  cases hv : vis[i]? with
+  | none => simp [hv] at h
+  | some vi =>
+    simp only [hv] at h ⊢
+    simp at h ⊢
+    obtain ⟨⟨hnr, hk⟩, h2⟩ := h
+    right; rw [← hk]; exact ⟨⟨by rw [hk]; exact hnr, rfl⟩, h2⟩
+
+theorem moveOkAt_mono {cfg : Cfg} {vis : List VarInfo} {rtD tD rtS tS i d s : Nat}
+    (h : moveOkAt cfg vis rtD tD rtS tS ⟨i, true, false⟩ d s = true) : moveOkAt cfg vis rtD tD rtS tS ⟨i, true, true⟩ d s = true := by
+  unfold moveOkAt at h ⊢
+  cases hm : argMove cfg rtD d tD (.reg rtS s) tS with
+  | none => rfl
+  | some ins =>
+    rw [hm] at h; simp only at h ⊢
+    split
+    · rename_i rd d' rs s' hops
+      rw [hops] at h
+      simp only [Bool.and_eq_true] at h ⊢
+      refine ⟨h.1, ?_⟩
+      have h2 := h.2
+      split at h2
+      · rename_i k c w heff; exact moveTok_dv_mono vis i k c w h2
+      · exact absurd h2 (by simp)
+    · rename_i hno
+      split at h
+      · rename_i rd d' rs s' hops; exact absurd hops (hno rd d' rs s')
+      · exact absurd h (by simp)
+
+/-- a token in source form (possibly already in destination form) is handled like the initial token -/
+theorem moveOkAt_of_form {cfg : Cfg} {vis : List VarInfo} {rtD tD rtS tS i d s : Nat} (tok : Tok)
+    (h0 : moveOkAt cfg vis rtD tD rtS tS (initTok vis i) d s = true)
+    (htv : tok.var = i) (hsv : tok.sv = true) (hdv0 : (initTok vis i).dv = true → tok.dv = true) :
+    moveOkAt cfg vis rtD tD rtS tS tok d s = true := by
+  obtain ⟨tv, tsv, tdv⟩ := tok
+  simp only at htv hsv hdv0
+  subst htv hsv
+  have hi0 : initTok vis tv = ⟨tv, true, (initTok vis tv).dv⟩ := rfl
+  rw [hi0] at h0
+  generalize (initTok vis tv).dv = d0 at h0 hdv0
+  cases d0 with
+  | true => rw [hdv0 rfl]; exact h0
+  | false =>
+    cases tdv with
+    | false => exact h0
+    | true => exact moveOkAt_mono h0
 
 end AsmjitVerif.C06S
